@@ -6,6 +6,7 @@ import (
 	"go/token"
 	"go/types"
 	"strings"
+	"time"
 
 	"golang.org/x/tools/go/ssa"
 )
@@ -72,57 +73,58 @@ type knownRegion struct {
 }
 
 type Interp struct {
-	prog     *ssa.Program
-	tt       *TermTable
-	sol      *Solver
-	globals  map[*ssa.Global]*Value
-	consts   map[*ssa.Const]Value
-	methods  map[types.Type]map[string]*ssa.Function
-	implCache map[[2]types.Type]bool
+	prog       *ssa.Program
+	tt         *TermTable
+	sol        *Solver
+	globals    map[*ssa.Global]*Value
+	consts     map[*ssa.Const]Value
+	methods    map[types.Type]map[string]*ssa.Function
+	implCache  map[[2]types.Type]bool
 	intrinsics map[string]intrinsic
-	fnIntr   map[*ssa.Function]intrinsic
-	fnIntrNo map[*ssa.Function]bool
-	repoPkgs []*ssa.Package
-	mainPkg  *ssa.Package
-	ex       *Explorer
+	fnIntr     map[*ssa.Function]intrinsic
+	fnIntrNo   map[*ssa.Function]bool
+	repoPkgs   []*ssa.Package
+	mainPkg    *ssa.Package
+	ex         *Explorer
 
 	// per-path state
-	prefix   []Decision
-	dpos     int
-	path     []Decision
-	model    Model
-	evc      evalCache
-	inputs   []*Term
-	inputCnt map[string]int
-	pcLen    int
-	known    []knownRegion
-	observes []observed
-	reached  map[string]bool
-	steps    int
-	backEdges int
+	prefix     []Decision
+	dpos       int
+	path       []Decision
+	model      Model
+	evc        evalCache
+	inputs     []*Term
+	inputCnt   map[string]int
+	pcLen      int
+	known      []knownRegion
+	observes   []observed
+	reached    map[string]bool
+	steps      int
+	backEdges  int
 	termBudget int // >0: Terminates obligation
-	termBase int
-	unwind   int
-	files    map[*Value]*[]Value // pty stubs etc.
-	timers   []*timerRec
-	env      map[string]string
-	depth    int
-	curFrame *frame
-	pathStats PathStats
-	chanSeq  int
-	spec     bool
-	pdoms    map[*ssa.Function][]int
-	merges   map[*ssa.BasicBlock]*mergeInfo
-	onceDone map[*Value]bool
-	pools    map[*Value][]Value
-	gors     []*gor
-	cur      *gor
-	abort    interface{}
-	killing  bool
-	lastPanic *goPanic
-	curInstr ssa.Instruction
-	asserted map[*Term]bool
-	initSteps int
+	termBase   int
+	unwind     int
+	files      map[*Value]*[]Value // pty stubs etc.
+	timers     []*timerRec
+	env        map[string]string
+	depth      int
+	curFrame   *frame
+	pathStats  PathStats
+	chanSeq    int
+	spec       bool
+	pdoms      map[*ssa.Function][]int
+	merges     map[*ssa.BasicBlock]*mergeInfo
+	onceDone   map[*Value]bool
+	pools      map[*Value][]Value
+	gors       []*gor
+	cur        *gor
+	abort      interface{}
+	killing    bool
+	lastPanic  *goPanic
+	curInstr   ssa.Instruction
+	asserted   map[*Term]bool
+	pc         []*Term
+	initSteps  int
 }
 
 func (in *Interp) instrString() string {
@@ -160,7 +162,7 @@ func (in *Interp) needModel() {
 	if in.model != nil {
 		return
 	}
-	res, m, err := in.sol.Check(nil, in.inputs)
+	res, m, err := in.check(nil, in.inputs)
 	if err != nil {
 		panic(pathEnd{"unknown", err.Error()})
 	}
@@ -175,8 +177,28 @@ func (in *Interp) needModel() {
 	}
 }
 
+// check asks z3 (incrementally, under the asserted path condition); when z3 gives up it
+// re-decides the query from scratch with cvc5's integer encoding.
+func (in *Interp) check(extra []*Term, vars []*Term) (SatResult, Model, error) {
+	res, m, err := in.sol.Check(extra, vars)
+	if res != Unknown {
+		return res, m, err
+	}
+	all := make([]*Term, 0, len(in.pc)+len(extra))
+	all = append(all, in.pc...)
+	all = append(all, extra...)
+	r2, m2, e2 := Fallback(all, vars, time.Duration(in.ex.cfg.FallbackTimeoutS)*time.Second)
+	in.ex.noteFallback(r2)
+	if r2 != Unknown {
+		return r2, m2, nil
+	}
+	_ = e2
+	return res, m, err
+}
+
 func (in *Interp) assertPC(c *Term) {
 	in.sol.Assert(c)
+	in.pc = append(in.pc, c)
 	in.pcLen++
 	in.noteAsserted(c)
 }
@@ -260,7 +282,7 @@ func (in *Interp) decide(c *Term) bool {
 		in.pathStats.Pruned++
 	} else {
 		in.pathStats.Queries++
-		res, m, err = in.sol.Check([]*Term{oc}, in.inputs)
+		res, m, err = in.check([]*Term{oc}, in.inputs)
 	}
 	if err != nil {
 		in.ex.noteSolverError(err)
@@ -322,7 +344,7 @@ func (in *Interp) concretize(t *Term) uint64 {
 			break
 		}
 		in.pathStats.Queries++
-		res, m, err := in.sol.Check(excl, in.inputs)
+		res, m, err := in.check(excl, in.inputs)
 		if err != nil {
 			in.ex.noteSolverError(err)
 		}
@@ -364,7 +386,7 @@ func (in *Interp) assume(c *Term) {
 	in.needModel()
 	if !in.evalBool(c) {
 		in.pathStats.Queries++
-		res, m, err := in.sol.Check([]*Term{c}, in.inputs)
+		res, m, err := in.check([]*Term{c}, in.inputs)
 		if err != nil {
 			in.ex.noteSolverError(err)
 		}
@@ -408,7 +430,7 @@ func (in *Interp) oblige(ok *Term, site string) {
 	nok := in.tt.Not(ok)
 	if in.evalBool(ok) {
 		in.pathStats.Queries++
-		res, m, err := in.sol.Check([]*Term{nok}, in.inputs)
+		res, m, err := in.check([]*Term{nok}, in.inputs)
 		if err != nil {
 			in.ex.noteSolverError(err)
 		}
@@ -422,7 +444,7 @@ func (in *Interp) oblige(ok *Term, site string) {
 	} else {
 		in.reportViolation(site, in.model, nok)
 		in.pathStats.Queries++
-		res, m, err := in.sol.Check([]*Term{ok}, in.inputs)
+		res, m, err := in.check([]*Term{ok}, in.inputs)
 		if err != nil {
 			in.ex.noteSolverError(err)
 		}
@@ -474,7 +496,7 @@ func (in *Interp) reportViolation(site string, m Model, extra *Term) {
 		}
 	}
 	in.pathStats.Queries++
-	res, m2, err := in.sol.Check(q, in.inputs)
+	res, m2, err := in.check(q, in.inputs)
 	if err != nil {
 		in.ex.noteSolverError(err)
 	}
@@ -1036,6 +1058,15 @@ func (in *Interp) load(addr Value, t types.Type) Value {
 			in.runtimePanic("invalid memory address or nil pointer dereference")
 		}
 		return copyVal(*p)
+	case *LazyPtr:
+		v := zero(p.ls.elem)
+		for _, w := range p.ls.writes {
+			v = in.mergeVal(in.tt.Cmp(OpEq, p.idx, w.idx), copyVal(w.val), v, p.ls.elem)
+		}
+		for _, f := range p.path {
+			v = v.(Struct)[f]
+		}
+		return copyVal(v)
 	case *SymPtr:
 		n := len(p.c)
 		v := copyVal(*p.c[n-1].p)
@@ -1055,6 +1086,17 @@ func (in *Interp) store(addr Value, v Value, t types.Type) {
 			in.runtimePanic("invalid memory address or nil pointer dereference")
 		}
 		*p = copyVal(v)
+	case *LazyPtr:
+		if len(p.path) > 0 {
+			whole := in.load(&LazyPtr{ls: p.ls, idx: p.idx}, p.ls.elem)
+			cur := whole
+			for _, f := range p.path[:len(p.path)-1] {
+				cur = cur.(Struct)[f]
+			}
+			cur.(Struct)[p.path[len(p.path)-1]] = copyVal(v)
+			v = whole
+		}
+		p.ls.writes = append(p.ls.writes, lazyWrite{p.idx, copyVal(v)})
 	case *SymPtr:
 		for _, c := range p.c {
 			*c.p = in.mergeVal(c.g, copyVal(v), *c.p, t)
@@ -1176,6 +1218,9 @@ func (in *Interp) fieldAddr(base Value, field int) Value {
 			n.c[i] = cand{c.g, &(*c.p).(Struct)[field]}
 		}
 		return n
+	case *LazyPtr:
+		np := append(append([]int{}, p.path...), field)
+		return &LazyPtr{ls: p.ls, idx: p.idx, path: np}
 	}
 	engineErr("fieldAddr on %T", base)
 	return nil
@@ -1200,6 +1245,19 @@ func (in *Interp) indexAddr(fr *frame, i *ssa.IndexAddr) Value {
 	base := fr.get(i.X)
 	idx := fr.get(i.Index)
 	iw, isigned, _ := intInfo(i.Index.Type())
+	if lz, ok := base.(*LazySlice); ok {
+		var i64 *Term
+		it := in.toTerm(idx, iw)
+		if isigned {
+			i64 = in.tt.SExt(it, 64)
+		} else {
+			i64 = in.tt.ZExt(it, 64)
+		}
+		if !in.decide(in.tt.Cmp(OpULt, i64, lz.length)) {
+			in.runtimePanic("index out of range [symbolic] with symbolic length")
+		}
+		return &LazyPtr{ls: lz, idx: i64}
+	}
 	if sp, ok := base.(*SymPtr); ok {
 		// pointer-to-array behind symbolic pointer: combine guards
 		out := &SymPtr{}
@@ -1284,6 +1342,19 @@ func (in *Interp) indexOp(fr *frame, i *ssa.Index) Value {
 }
 
 func (in *Interp) makeSlice(fr *frame, i *ssa.MakeSlice) Value {
+	if lt, ok := fr.get(i.Len).(*Term); ok && in.ex.cfg.LazySlices {
+		lw, ls, _ := intInfo(i.Len.Type())
+		var l64 *Term
+		if ls {
+			if in.decide(in.tt.Cmp(OpSLt, lt, in.tt.Const(lw, 0))) {
+				in.runtimePanic("makeslice: len out of range")
+			}
+			l64 = in.tt.SExt(lt, 64)
+		} else {
+			l64 = in.tt.ZExt(lt, 64)
+		}
+		return &LazySlice{length: l64, elem: i.Type().Underlying().(*types.Slice).Elem()}
+	}
 	n := in.concInt(fr.get(i.Len))
 	c := in.concInt(fr.get(i.Cap))
 	lw, ls, _ := intInfo(i.Len.Type())
@@ -1601,6 +1672,8 @@ func (in *Interp) callBuiltin(b *ssa.Builtin, args []Value, site ssa.CallInstruc
 			return uint64(len(x.B))
 		case Slice:
 			return uint64(len(x))
+		case *LazySlice:
+			return x.length
 		case Array:
 			return uint64(len(x))
 		case *Value: // pointer to array
